@@ -195,6 +195,25 @@ func C41(e *simkern.Env) {
 				}
 			}
 		}
+		// ---- the same pipe history once more; the peer hangs up at a drawn byte
+		// of the server's output (the server's next write fails, possibly in the
+		// middle of a turn's flush); judged once Serve has returned
+		if reason == simkern.StopDone && !e.Violated() && len(sess.WireS2C) > 1 && tp.Bool(1, 2) {
+			cut := 1 + tp.Draw(len(sess.WireS2C)-1)
+			e.Knob("peer_hangup_after_bytes", cut)
+			sim.Fault("peer-hangup-mid-response")
+			sessC := &pipew.Session{Srv: pipew.NewServer(func(s *vgirpc.Server) {
+				if storage {
+					s.SetExternalLocation(extCfg())
+				}
+			}), Ops: ops, ExtInput: extIn, S2CCutAt: cut}
+			rC := pipew.RunSession(sim, sessC, kn, 80000)
+			if rC == simkern.StopDone && sessC.ServerReturned {
+				leak("pipe-session-peer-hangup", fmt.Sprintf("after a pipe session of %v in which the peer hung up after %d bytes of the server's output", pipew.Describe(ops), cut))
+			} else if rC != simkern.StopDone && rC != simkern.StopDeadlock {
+				reason = rC
+			}
+		}
 		// ---- HTTP: one client, judged after every request
 		if reason == simkern.StopDone && !e.Violated() {
 			cl := httpw.NewCluster(httpw.Config{Key: []byte("0123456789abcdef0123456789abcdef"), CacheSizes: []int{-1}, NoTwin: true, BatchLimit: batchLimit,
@@ -303,11 +322,11 @@ func init() {
 	Registry["C41"] = &Info{
 		Run:   C41,
 		Level: "exploration",
-		Rule:  "built with -tags verif,leakcheck: each run draws a call history (2-8 calls: success, handler error, panic, init failure, failing turns, cancel, abandon, castable and non-castable inputs, malformed and unknown-method requests), external storage on/off with threshold and upload compression, response caps, and fault rates for uploads and fetches; the history runs on a simulated pipe (outstanding allocation judged when the session is over) and over HTTP (judged after every request: unary, stream init, exchange, producer continuation, cancel; some unary requests, and in half of the runs with storage two thirds of the stream inputs — including castable int32 ones — sent as external pointers the server must fetch through a failing RoundTripper); distinct = schedule fingerprint",
+		Rule:  "built with -tags verif,leakcheck: each run draws a call history (2-8 calls: success, handler error, panic, init failure, failing turns, cancel, abandon, castable and non-castable inputs, malformed and unknown-method requests), external storage on/off with threshold and upload compression, response caps, and fault rates for uploads and fetches; the history runs on a simulated pipe (outstanding allocation judged when the session is over; in half of the runs once more with the peer hanging up at a drawn byte of the server's output) and over HTTP (judged after every request: unary, stream init, exchange, producer continuation, cancel; some unary requests, and in half of the runs with storage two thirds of the stream inputs — including castable int32 ones — sent as external pointers the server must fetch through a failing RoundTripper); distinct = schedule fingerprint",
 		Real:  []string{"vgirpc dispatch paths on pipe and HTTP with the checked allocator (alloc_leakcheck.go), external upload/resolve, cast, caps"},
 		Stub:  []string{"transports", "protocol client", "object store / origin with injected upload and fetch failures", "scripted handlers (allocate with their own allocator)"},
 		Quick: 600, Thorough: 60000,
-		FaultKinds: []string{"upload-failure", "fetch-error", "fetch-status", "fetch-truncated", "external-request-pointer", "external-input-pointer", "client-hangup-during-turn", "client-cancel", "malformed-request"},
+		FaultKinds: []string{"upload-failure", "fetch-error", "fetch-status", "fetch-truncated", "external-request-pointer", "external-input-pointer", "client-hangup-during-turn", "client-cancel", "malformed-request", "peer-hangup-mid-response"},
 		Assumptions: []string{"the balance is read through the package's own LeakCheckSummary", "on a pipe the balance is judged at the end of the session (while a call is in flight the server may still hold batches); shared-memory resolution is exercised under C36"},
 	}
 }
